@@ -10,11 +10,12 @@ Ideal gas (`problem = 'igeos'`):
   (`solve_eos`), for all four patterns and unequal γ.
 JWL (`problem = 'JWL'`):
 * the traced `sie` inverts the JWL pressure form of `EPV.Spec.Riemann.jwlPressure`;
-* `JWL_dfdr` is the derivative of `JWL_f` (generated certificate);
+* `JWL_dfdr` is the derivative of `JWL_f` (both bridged to the documented formulas, `EPV.Lemmas.Bridge.RiemannGen`);
 * `dsdr_cP`, `dsdp_cR` are the partial derivatives of the traced `sie`, and
   `sound_speed² = (p/ρ² - ∂e/∂ρ|ₚ)/(∂e/∂p|ᵨ)` ([Kamm2015] eqs. 5, 6).
 -/
 import EPV.Lemmas.Riemann
+import EPV.Lemmas.Bridge.RiemannGen
 import EPV.Gen.RiemJwlFunD
 import EPV.Gen.RiemJwlDfun
 import EPV.Gen.RiemSieJWLD
@@ -45,7 +46,8 @@ sound-speed formula reduces to γ p/ρ -/
 theorem riemann_ig_general_sound (p ρ γ : ℝ) (hρ : ρ ≠ 0) (hγ : γ - 1 ≠ 0) :
     cSqGeneral p ρ (RiemDsdrIG.d { pk := p, rho := ρ, gk := γ }) (RiemDsdpIG.d { rho := ρ, gk := γ })
       = γ * p / ρ := by
-  simp only [cSqGeneral, epv_tree, epv_leaf]; field_simp; ring
+  rw [Bridge.Riem.dsdrIG_eq, Bridge.Riem.dsdpIG_eq]
+  simp only [cSqGeneral]; field_simp; ring
 
 /-- the constructor (`SetupRiemannProblem.__init__`) stores the sound speeds and energies of the two
 states, each with its own γ -/
@@ -53,7 +55,7 @@ theorem riemann_setup (q : Prob) :
     RiemSetup.al (toSetup q) = sound q.pl q.rl q.gl ∧ RiemSetup.ar (toSetup q) = sound q.pr q.rr q.gr ∧
     RiemSetup.el (toSetup q) = sie q.pl q.rl q.gl ∧ RiemSetup.er (toSetup q) = sie q.pr q.rr q.gr := by
   refine ⟨?_, ?_, ?_, ?_⟩ <;> simp only [epv_tree] <;> split_ifs <;>
-    simp only [sound_eq, sie_eq, toSetup, epv_leaf]
+    simp only [sound_eq, sie_eq, toSetup, epv_leaf] <;> riem_deep
 
 /-! ### every region of the assembled solution -/
 
@@ -140,11 +142,12 @@ theorem jwl_sie_inverts (c : Jwl) (hc : c.Regular) (p ρ : ℝ) (hρ : ρ ≠ 0)
   have hR1 : c.R1 ≠ 0 := left_ne_zero_of_mul h1
   have hR2 : c.R2 ≠ 0 := left_ne_zero_of_mul h2
   have hr0 : c.r0 ≠ 0 := right_ne_zero_of_mul h1
-  simp only [jwlPressure, jwlSie, epv_tree, epv_leaf]
+  simp only [jwlPressure, jwlSie, Bridge.Riem.sieJWL_eq, Bridge.Riem.jwlF]
   field_simp
   ring
 
-/-- JWL: `JWL_dfdr` is the derivative of `JWL_f` with respect to the density (generated certificate) -/
+/-- JWL: `JWL_dfdr` is the derivative of `JWL_f` with respect to the density (derivative of the documented
+formula `Bridge.Riem.jwlF`, to which the traced `JWL_f` is bridged; likewise `JWL_dfdr`) -/
 theorem jwl_dfdr (c : Jwl) (hc : c.Regular) (ρ : ℝ) (hρ : ρ ≠ 0) :
     HasDerivAt (fun r => jwlF c r) (jwlDf c ρ) ρ := by
   obtain ⟨h1, h2, h3⟩ := hc
@@ -153,16 +156,12 @@ theorem jwl_dfdr (c : Jwl) (hc : c.Regular) (ρ : ℝ) (hρ : ρ ≠ 0) :
   have hR1 : c.R1 ≠ 0 := left_ne_zero_of_mul h1
   have hR2 : c.R2 ≠ 0 := left_ne_zero_of_mul h2
   have hr0 : c.r0 ≠ 0 := right_ne_zero_of_mul h1
-  have cert := RiemJwlFun.L0.f_hasDerivAt_rho
-    { A := c.A, B := c.B, R1 := c.R1, R2 := c.R2, r0 := c.r0, gk := c.g } ρ hρ k1 k2
-  have e : (fun r => jwlF c r)
-      = fun r => RiemJwlFun.L0.f { A := c.A, B := c.B, R1 := c.R1, R2 := c.R2, r0 := c.r0, gk := c.g } r := by
-    funext r; simp only [jwlF, epv_tree]
-  rw [e]
-  refine cert.congr_deriv ?_
-  simp only [jwlDf, epv_tree, epv_leaf, epv_deriv]
-  field_simp
-  ring
+  -- shape-independent: both traced functions are bridged to the documented formulas, whose derivative is
+  -- proved once in `EPV.Lemmas.Bridge.RiemannGen`
+  have e : (fun r => jwlF c r) = fun r => Bridge.Riem.jwlF c.A c.B c.R1 c.R2 c.r0 c.g r := by
+    funext r; simp only [jwlF, Bridge.Riem.jwlFun_eq]
+  rw [e, jwlDf, Bridge.Riem.jwlDfun_eq]
+  exact Bridge.Riem.jwlF_hasDerivAt c.A c.B c.R1 c.R2 c.r0 c.g ρ hρ h1 h2
 
 theorem jwlF_leaves : RiemJwlFun.okLeaves = [0] ∧ RiemSieJWL.okLeaves = [0] := ⟨rfl, rfl⟩
 
@@ -176,29 +175,20 @@ theorem jwl_dsdr (c : Jwl) (hc : c.Regular) (p ρ : ℝ) (hρ : ρ ≠ 0) :
   have hR1 : c.R1 ≠ 0 := left_ne_zero_of_mul h1
   have hR2 : c.R2 ≠ 0 := left_ne_zero_of_mul h2
   have hr0 : c.r0 ≠ 0 := right_ne_zero_of_mul h1
-  have cert := RiemSieJWL.L0.e_hasDerivAt_rho
-    { A := c.A, B := c.B, R1 := c.R1, R2 := c.R2, r0 := c.r0, gk := c.g } p ρ hρ k1 k2
   have e : (fun r => jwlSie c p r)
-      = fun r => RiemSieJWL.L0.e { A := c.A, B := c.B, R1 := c.R1, R2 := c.R2, r0 := c.r0, gk := c.g } p r := by
-    funext r; simp only [jwlSie, epv_tree]
-  rw [e]
-  refine cert.congr_deriv ?_
-  simp only [epv_tree, epv_leaf, epv_deriv]
-  field_simp
-  ring
+      = fun r => (p - Bridge.Riem.jwlF c.A c.B c.R1 c.R2 c.r0 c.g r) / (c.g - 1) / r := by
+    funext r; simp only [jwlSie, Bridge.Riem.sieJWL_eq]
+  rw [e, Bridge.Riem.dsdrJWL_eq]
+  exact Bridge.Riem.sieJWL_hasDerivAt_rho c.A c.B c.R1 c.R2 c.r0 c.g p ρ hρ h1 h2
 
 /-- JWL: `dsdp_cR` is ∂e/∂p at constant ρ of the traced `sie` -/
 theorem jwl_dsdp (c : Jwl) (p ρ : ℝ) :
     HasDerivAt (fun x => jwlSie c x ρ) (RiemDsdpJWL.d { gk := c.g, rho := ρ }) p := by
-  have cert := RiemSieJWL.L0.e_hasDerivAt_pk
-    { A := c.A, B := c.B, R1 := c.R1, R2 := c.R2, r0 := c.r0, gk := c.g } p ρ
   have e : (fun x => jwlSie c x ρ)
-      = fun x => RiemSieJWL.L0.e { A := c.A, B := c.B, R1 := c.R1, R2 := c.R2, r0 := c.r0, gk := c.g } x ρ := by
-    funext r; simp only [jwlSie, epv_tree]
-  rw [e]
-  refine cert.congr_deriv ?_
-  simp only [epv_tree, epv_leaf, epv_deriv]
-  ring
+      = fun x => (x - Bridge.Riem.jwlF c.A c.B c.R1 c.R2 c.r0 c.g ρ) / (c.g - 1) / ρ := by
+    funext r; simp only [jwlSie, Bridge.Riem.sieJWL_eq]
+  rw [e, Bridge.Riem.dsdpJWL_eq]
+  exact Bridge.Riem.sieJWL_hasDerivAt_p _ c.g p ρ
 
 /-- JWL: `sound_speed² = (p/ρ² - ∂e/∂ρ|ₚ) / ∂e/∂p|ᵨ` with the derivatives of the traced `sie`
 (wherever the radicand is non-negative, i.e. the sound speed is real) -/
@@ -211,7 +201,8 @@ theorem jwl_sound_sq (c : Jwl) (hc : c.Regular) (p ρ : ℝ) (hρ : ρ ≠ 0)
       = Real.sqrt (cSqGeneral p ρ
           (RiemDsdrJWL.d { A := c.A, B := c.B, R1 := c.R1, R2 := c.R2, r0 := c.r0, gk := c.g, pk := p, rho := ρ })
           (RiemDsdpJWL.d { gk := c.g, rho := ρ })) := by
-    simp only [cSqGeneral, epv_tree, epv_leaf]
+    rw [Bridge.Riem.soundJWL_eq, Bridge.Riem.dsdrJWL_eq, Bridge.Riem.dsdpJWL_eq]
+    simp only [cSqGeneral, Bridge.Riem.cSqJWL]
   rw [e, Real.sq_sqrt hrad]
 
 /-- non-vacuity: the constants of the Lee JWL shock tube (`examples/riemann.py`) are regular -/
